@@ -9,9 +9,14 @@ From TM Require Import Escape Systemd EscapeSpec.
 Definition x_build_service_text := build_service_text.
 Definition x_utf8 := utf8.
 Definition x_decode := decode.
-Definition x_read_back := read_back.
-Definition x_expected_argv := expected_argv.
+Definition x_exec_line := exec_line.
+Definition x_service_exec_starts := service_exec_starts.
+Definition x_read_unit := read_unit.
+Definition x_required_suffix := required_suffix.
+Definition x_prefix_ok := prefix_ok.
 Definition x_c17_check := c17_check.
+Definition x_text_class_ok := text_class_ok.
 Definition x_scalar_okb := scalar_okb.
 
-Extraction "model.ml" x_build_service_text x_utf8 x_decode x_read_back x_expected_argv x_c17_check x_scalar_okb.
+Extraction "model.ml" x_build_service_text x_utf8 x_decode x_exec_line x_service_exec_starts x_read_unit
+  x_required_suffix x_prefix_ok x_c17_check x_text_class_ok x_scalar_okb.
